@@ -14,8 +14,10 @@ func init() {
 			Assumptions: []string{"encoding/asn1, cryptobyte, crypto/ecdh do not panic on arbitrary input and Bytes() has the documented fixed length"},
 			Trusted:     []string{"go/packages", "go/types", "go/ssa", "crypto/x509 source as oracle"},
 			RuleDoc: map[string]string{
-				"R1.bounds": "index/slice/assertion obligations of the parsers and of ModHex",
-				"R1.nil":    "nil-dereference obligations (use before error check)",
+				"R1.bounds":   "index/slice/assertion obligations of the parsers and of ModHex",
+				"R1.nil":      "nil-dereference obligations (use before error check)",
+				"R2.tables":   "OID / algorithm tables equal to crypto/x509's source tables",
+				"R4.alphabet": "ModHex alphabet, 4-bit masking, serial extension OID",
 			},
 		},
 		Run: runC16,
@@ -40,4 +42,5 @@ func runC16(c *Ctx) {
 		}
 	}
 	runPanicRules(c, "R1", c16Entries(w), 30)
+	tablesC16(c)
 }
